@@ -149,13 +149,23 @@ def main(tier, seed):
     k3 = 60000 if tier == "quick" else 400000
     seqs += [" ".join(rng.choice(vocab) for _ in range(rng.choice([3, 3, 4, 5, 8]))) for _ in range(k3)]
     n2, s2 = parser_part(rep, dev, tier, rng, seqs, "token sequences")
+    # ---- the grammar: Parser.tla (the recogniser half of compiler.rs as a total function of the token sequence) predicts for every input
+    #      whether compilation succeeds and, if not, the first recorded error - offending token, its line, message; the compiler must agree.
+    #      Inputs: the repository's scripts, their mutations, all token pairs and a sample of longer sequences (one token per line, so that
+    #      the line of the offending token is part of what is compared)
+    import parsertwin
+    n4, s4 = parsertwin.check(rep, dev, [s for _n, s, _e in items] + srcs, "repository scripts and their mutations", tag="c03twinA")
+    vocab2 = [t for t in vocab if t != "\"a${1}b\""] + ["\"a${1}\"", "\"${x}b\"", "@", "{", "}"]
+    lines = ["\n".join(p) for p in itertools.product(vocab2, repeat=2)]
+    lines += ["\n".join(rng.choice(vocab2) for _ in range(rng.choice([3, 3, 4, 5, 6, 8, 12]))) for _ in range(30000 if tier == "quick" else 300000)]
+    n5, s5 = parsertwin.check(rep, dev, lines, "token sequences, one token per line", tag="c03twinB")
     # nesting within stated bounds
     deep = ["(" * d + "1" + ")" * d + ";" for d in (1, 10, 64)] + ["{" * d + "}" * d for d in (1, 10, 64)] + \
            ["var s = " + ("\"a${" * d) + "1" + ("}\"" * d) + ";" for d in (7, 8, 9, 12)] + ["[" * d + "]" * d + ";" for d in (10, 64)]
     n3, s3 = parser_part(rep, dev, tier, rng, deep, "nesting")
-    rep.coverage["states"] = states + s1 + s2 + s3
-    rep.coverage["transitions"] = states + s1 + s2 + s3
-    rep.coverage["traces_validated_against_impl"] = nscan + n1 + n2 + n3
+    rep.coverage["states"] = states + s1 + s2 + s3 + s4 + s5
+    rep.coverage["transitions"] = states + s1 + s2 + s3 + s4 + s5
+    rep.coverage["traces_validated_against_impl"] = nscan + n1 + n2 + n3 + n4 + n5
     rep.coverage["scanner_sources"] = nscan
     rep.coverage["parser_inputs"] = n1 + n2 + n3
     rep.coverage["exhaustive"] = True
@@ -165,6 +175,11 @@ def main(tier, seed):
                             "substitutions / insertions and Unicode noise over the 546 repository scripts, all pairs and a large sample of longer "
                             "sequences over the token vocabulary, and nesting at and beyond the stated interpolation bound; every compilation must "
                             "return, fail only with located compile errors, and its ErrorAt / Synchronise / ParseEnd events must satisfy TraceParser.tla "
-                            "(first error after a synchronisation point is recorded; a function is returned iff no error was recorded)")
-    rep.assumptions += ["the grammar itself is not modelled: for parser inputs the oracle is totality and the recovery discipline, not accept / reject"]
+                            "(first error after a synchronisation point is recorded; a function is returned iff no error was recorded); Parser.tla - the "
+                            "recogniser half of compiler.rs (Pratt table, every consume, statements, attributes, the context rules for return / break / "
+                            "continue / self / Self / super, duplicate declarations, reads in own initialiser) - predicts accept / reject and the first "
+                            "recorded error (token, line, message) for the repository scripts, their mutations and the token sequences, and the compiler "
+                            "must agree")
+    rep.assumptions += ["after the first recorded error only the recovery discipline is specified (TraceParser.tla), not which later messages appear",
+                        "sources whose token texts contain non-ASCII characters, quotes or backslashes are not given to the parser twin (TLC strings); they are still compiled and trace-validated"]
     return rep.finish()
